@@ -348,7 +348,7 @@ static void crash_points(int from, int to, int stride, const char *vars, const c
       rc = ldb_open(imgdir, &o2, &db2);
       printf("crash %d %d rc=%d", n, v, rc);
       if (rc == LDB_OK) {
-        printf(" lognum=%lld lastseq=%llu ", g_first_apply_lognum, (unsigned long long)db2->versions->last_sequence);
+        printf(" lognum=%lld lastseq=%llu ", g_first_apply_lognum >= 0 ? g_first_apply_lognum : (long long)db2->versions->log_number, (unsigned long long)db2->versions->last_sequence);
         dump_internal(db2);
         if (follow) {
           int k; uint64_t seq0 = db2->versions->last_sequence + 1; int wrc = 0;
